@@ -295,14 +295,28 @@ def _child_plain(s, p, c, seen=()):
   return None
 
 
-def _refs(s, d, rid):
-  """Elements of document d referencing a region whose id is rid -> (names, any under the body tree)."""
+def off_body(s, n):
+  """Whether element n is outside the body tree of its document: its root (top of the parent chain) is not the body
+  of the document it belongs to."""
   el = s["el"]
-  body = s["doc"][d]["body"]
-  in_body = set(subtree(s, body)) if body is not None and body in el else set()
+  anc = ancestors(s, n)
+  root = anc[-1] if anc else n
+  d = el[n]["doc"]
+  return d is None or d not in s["doc"] or s["doc"][d]["body"] != root
+
+
+def _refs(s, d, rid):
+  """Elements of document d referencing a region whose id is rid -> (names, how many of them are in the body tree)."""
+  el = s["el"]
   names = [n for n, e in el.items() if e["doc"] == d and e["region"] is not None and _is_el(s, e["region"])
            and el[e["region"]]["id"] == rid]
-  return names, any(n in in_body for n in names)
+  return names, sum(1 for n in names if not off_body(s, n))
+
+
+def _ref_where(names, n_in):
+  if n_in == len(names):
+    return "in-body"
+  return "off-body" if n_in == 0 else "in-and-off-body"
 
 
 SINGLE_OPS = frozenset(["push_child", "remove_child", "remove", "set_region", "set_body", "set_style",
@@ -401,16 +415,16 @@ def classify(s, op, pools):
       return "new"
     if cur == r:
       return "same"
-    refs, _ = _refs(s, d, el[r]["id"])
-    return "replace-referenced" if refs else "replace-unreferenced"
+    refs, n_in = _refs(s, d, el[r]["id"])
+    return "replace-referenced-" + _ref_where(refs, n_in) if refs else "replace-unreferenced"
   if name == "remove_region":
     d, rid = op[1], op[2]
     if rid not in docs[d]["regions"]:
       return "unknown-id"
-    refs, in_body = _refs(s, d, rid)
+    refs, n_in = _refs(s, d, rid)
     if not refs:
       return "unreferenced"
-    return "referenced-in-body" if in_body else "referenced-off-body"
+    return "referenced-" + _ref_where(refs, n_in)
   if name == "set_body":
     d, b = op[1], op[2]
     if b is None:
@@ -515,12 +529,12 @@ def predict(s, op, pools, flavor=None):
     t["el"][op[1]]["region"] = op[2]
     return t, wild
   if name == "put_region":
-    if f not in ("new", "same", "replace-referenced", "replace-unreferenced"):
+    if f not in ("new", "same", "replace-unreferenced") and not f.startswith("replace-referenced"):
       return None
     t = clone(s)
     rid = s["el"][op[2]]["id"]
     t["doc"][op[1]]["regions"][rid] = op[2]
-    if f == "replace-referenced":
+    if f.startswith("replace-referenced"):
       for n in _refs(s, op[1], rid)[0]:
         wild.add(("el", n, "region"))
     return t, wild
